@@ -22,6 +22,7 @@ struct BusNode {
 	std::map<uint8_t, uint8_t> accessory_aspect;
 	uint8_t cs_state = 0;
 	uint8_t boost_state = 0;
+	bool gone = false;               // removed from the bus
 };
 
 struct TxRec {                        // one decoded downlink message
@@ -43,6 +44,7 @@ struct Bus {
 	bool feature_mismatch = false;    // FEATURE answers carry value+1
 	int table_change_at = -1;         // send NODETAB_COUNT instead of the k-th NODETAB row (once)
 	int table_changes_left = 0;
+	int drop_on_change = -1;          // node index that disappears at the moment of the table change
 	uint8_t nodetab_version = 1;
 	bool answer_drive = true;
 	uint64_t answer_delay_us = 0;
